@@ -161,6 +161,44 @@ def observe(model, viol, site, probes, extra_tree):
                 if again[0] != leaves or again[1] != other:
                     viol('round-trip', site, 're-flattening a %s in the namespace recorded by its %s treespec (%r) gives leaves %r instead of %r' % (
                         name, how, other.namespace, again[0], leaves))
+        # ---- operations that PAIR two dict-bearing trees must pair children by KEY in either mode, also when the two
+        # trees were built in different insertion orders and below the root (values are compared with ==, which ignores
+        # dict order)
+        for mk in (dict, lambda it: defaultdict(int, it)):
+            t1 = [mk([('b', 1), ('a', (2, 3))]), (mk([('y', 10), ('x', mk([('q', 0), ('p', 5)]))]),)]
+            t2 = [mk([('a', (4, 5)), ('b', 6)]), (mk([('x', mk([('p', 7), ('q', 8)])), ('y', 20)]),)]
+            kwn = {'namespace': ns}
+            try:
+                got = optree.tree_map(lambda x, y: (x, y), t1, t2, **kwn)
+                want = [{'b': (1, 6), 'a': ((2, 4), (3, 5))}, ({'y': (10, 20), 'x': {'q': (0, 8), 'p': (5, 7)}},)]
+                if got != want:
+                    viol('pairing', site, 'tree_map over two trees with equal key sets in different insertion orders (namespace %r, mode %s) paired %r' % (ns, want_eff, got))
+                bc = optree.tree_broadcast_common(t1, t2, **kwn)
+                if bc != (t1, t2):
+                    viol('pairing', site, 'tree_broadcast_common changed / mispaired equal-structure inputs (namespace %r, mode %s): %r' % (ns, want_eff, bc))
+                pre = [mk([('b', 100), ('a', 200)]), (300,)]
+                bp = optree.tree_broadcast_prefix(pre, t2, **kwn)
+                if bp != [{'b': 100, 'a': (200, 200)}, ({'y': 300, 'x': {'q': 300, 'p': 300}},)]:
+                    viol('pairing', site, 'tree_broadcast_prefix mispaired (namespace %r, mode %s): %r' % (ns, want_eff, bp))
+                s1 = optree.tree_structure(t1, **kwn)
+                up = s1.flatten_up_to(t2)
+                by_path = dict(zip(s1.paths(), up))
+                if by_path != {(0, 'b'): 6, (0, 'a', 0): 4, (0, 'a', 1): 5, (1, 0, 'y'): 20, (1, 0, 'x', 'q'): 8, (1, 0, 'x', 'p'): 7}:
+                    viol('pairing', site, 'flatten_up_to paired values with the wrong paths (namespace %r, mode %s): %r' % (ns, want_eff, by_path))
+                s2 = optree.tree_structure(t2, **kwn)
+                cs = s1.broadcast_to_common_suffix(s2)
+                if not (s1.is_prefix(cs) and s2.is_prefix(cs)) or cs.num_leaves != 6:
+                    viol('pairing', site, 'broadcast_to_common_suffix of two equal structures is not a common suffix (namespace %r, mode %s): %r' % (ns, want_eff, cs))
+                if optree.prefix_errors(t1, t2, **kwn):
+                    viol('pairing', site, 'prefix_errors reports errors for trees that differ only in insertion order (namespace %r, mode %s)' % (ns, want_eff))
+            except Exception as e:  # noqa: BLE001
+                viol('pairing', site, 'pairing operation raised %s: %s (namespace %r, mode %s)' % (type(e).__name__, e, ns, want_eff))
+        # nested dicts below the root follow the mode too
+        nested = [{'b': 1, 'a': 2}, ({'d': 3, 'c': 4},), U.NT1({'f': 5, 'e': 6}, None)]
+        nl = optree.tree_leaves(nested, namespace=ns)
+        want_nl = [1, 2, 3, 4, 5, 6] if want_eff else [2, 1, 4, 3, 6, 5]
+        if nl != want_nl or list(optree.tree_iter(nested, namespace=ns)) != want_nl or optree.tree_flatten_with_path(nested, namespace=ns)[1] != want_nl:
+            viol('order-mismatch', site, 'dicts nested below the root do not follow the mode in namespace %r (mode %s): %r' % (ns, want_eff, nl))
         leaves, spec = optree.tree_flatten(od, namespace=ns)
         if leaves != [1, 2, 3] or spec.entries() != PROBE_KEYS_INS or spec != optree.treespec_ordereddict(OrderedDict((k, optree.treespec_leaf()) for k in PROBE_KEYS_INS), namespace=ns):
             viol('order-mismatch', site, 'OrderedDict affected by the mode in namespace %r: %r' % (ns, spec.entries()))
